@@ -153,6 +153,7 @@ func recvTypes() []recvType {
 		{"Clock", reflect.TypeOf(am.Clock{}), false},
 		{"Schema", reflect.TypeOf(am.Schema{}), false},
 		{"State", reflect.TypeOf(am.State{}), false},
+		{"ExceptionHandler", reflect.TypeOf((*am.ExceptionHandler)(nil)), false},
 	}
 }
 
@@ -362,6 +363,8 @@ func (w *world) recvValues(name string, r *rand.Rand) []reflect.Value {
 		return []reflect.Value{reflect.ValueOf(am.Schema{}), reflect.ValueOf(w.m.Schema())}
 	case "State":
 		return []reflect.Value{reflect.ValueOf(am.State{}), reflect.ValueOf(am.State{Require: am.S{"A"}, Remove: am.S{"B"}, Multi: true})}
+	case "ExceptionHandler":
+		return []reflect.Value{reflect.ValueOf(&am.ExceptionHandler{})}
 	}
 	return nil
 }
